@@ -45,7 +45,7 @@ pub fn tier_runs(prop: &str, tier: &str) -> u64 {
     };
     let q = std::env::var("DST_RUNS").ok().and_then(|s| s.parse().ok()).unwrap_or(quick);
     if tier == "thorough" {
-        std::env::var("DST_RUNS").ok().and_then(|s| s.parse().ok()).unwrap_or(quick * 25)
+        std::env::var("DST_RUNS").ok().and_then(|s| s.parse().ok()).unwrap_or(quick * 10)
     } else {
         q
     }
@@ -107,8 +107,18 @@ pub fn cli(args: &[String]) -> i32 {
                     0
                 }
             }
+            Some("channel") => match crate::selftest::channel_selftest(20_000, base_seed()) {
+                Ok(n) => {
+                    println!("channel stub fidelity: {} operations on 20000 random sequences agree with crossbeam-channel; tick semantics agree", n);
+                    0
+                }
+                Err(e) => {
+                    println!("STUB-MISMATCH: {}", e);
+                    2
+                }
+            },
             _ => {
-                eprintln!("usage: dst selftest determinism [n]");
+                eprintln!("usage: dst selftest determinism [n] | dst selftest channel");
                 2
             }
         },
@@ -197,7 +207,7 @@ fn cmd_check(prop: &str, tier: &str) -> i32 {
     let seed = base_seed();
     let n = tier_runs(prop, tier);
     let workers = std::env::var("DST_WORKERS").ok().and_then(|s| s.parse().ok()).unwrap_or(16usize);
-    let cap = if tier == "thorough" { 1500 } else { 150 };
+    let cap = if tier == "thorough" { 900 } else { 150 };
     let props: Vec<String> = vec![prop.to_string()];
     let agg = batch(prop, seed, n, workers, cap, &props);
     let known = load_known();
